@@ -32,13 +32,29 @@ func envsFor(t *ot.Target, tier string) []string {
 }
 
 func scenarios(tier string) []engine.Scenario {
-	var scs []engine.Scenario
+	type item struct {
+		sc   engine.Scenario
+		cost int
+	}
+	var items []item
 	for _, t := range ot.Targets() {
 		for _, en := range envsFor(t, tier) {
 			for ri := range t.Rows {
-				scs = append(scs, methodScenario(en, t, ri, tier))
+				// rough leaf count: kinds x (1 + output histories) x receiver histories; used only to deal the
+				// scenarios over the 16 workers (scenario i goes to worker i mod 16) in decreasing order of cost
+				r := &t.Rows[ri]
+				c := len(r.Kinds) * len(histories(t, tier))
+				if r.Out != nil {
+					c *= 3 + len(r.Out.Shapes)
+				}
+				items = append(items, item{methodScenario(en, t, ri, tier), c})
 			}
 		}
+	}
+	sort.SliceStable(items, func(i, j int) bool { return items[i].cost > items[j].cost })
+	scs := make([]engine.Scenario, len(items))
+	for i := range items {
+		scs[i] = items[i].sc
 	}
 	return scs
 }
@@ -121,7 +137,7 @@ func main() {
 		ThoroughBudget: 25 * time.Minute,
 		Expect: func(tier string) []string {
 			e := []string{"alias=fresh", "alias=out==in", "alias=in==in", "alias=all-equal",
-				"outshape=exact", "outshape=larger-degree", "outshape=larger-level", "outshape=garbage", "outshape=smaller-level",
+				"outshape=exact", "outshape=dirty-words", "outshape=dirty-meta", "outshape=larger-degree", "outshape=larger-level", "outshape=smaller-level",
 				"history=new", "history=residue", "history=after-call"}
 			for _, t := range ot.Targets() {
 				if len(envsFor(t, tier)) == 0 {
